@@ -26,6 +26,7 @@
     `Inst/C17b.lean` discharges both by `decide` and restates the theorems without them.
 -/
 import SoyVerif.Lemmas.LexPrintAdj
+import SoyVerif.Lemmas.F64Shape
 import SoyVerif.Props.C17
 
 set_option linter.unusedVariables false
@@ -126,6 +127,139 @@ theorem print_injective_bytes (a b : Expr) (ha : Canon ff pf a) (hb : Canon ff p
   rw [hp2] at hp1
   injection hp1 with hp1
   rw [← he1, ← he2, hp1]
+
+end
+
+/-! ### with Go's float formatting: the float hypothesis discharged (Lemmas/F64Shape.lean) -/
+
+/-- `strconv.FormatFloat(v, 'g', -1, 64)` on the bits of a float node: the soft-float formatter -/
+def ffGo : UInt64 → Bytes := fun b => F64.format ⟨b⟩
+
+mutual
+  /-- every float literal of the tree is finite (decidable) -/
+  def floatsFinite : Expr → Bool
+    | .float _ bits => !(F64.mk bits).isNaN && !(F64.mk bits).isInf
+    | .func _ _ args => floatsFiniteL args
+    | .list _ items => floatsFiniteL items
+    | .map _ items => floatsFiniteM items
+    | .dataRef _ _ acc => floatsFiniteAL acc
+    | .not _ a => floatsFinite a
+    | .neg _ a => floatsFinite a
+    | .bin _ _ a b => floatsFinite a && floatsFinite b
+    | .tern _ c a b => floatsFinite c && floatsFinite a && floatsFinite b
+    | _ => true
+  def floatsFiniteL : ExprList → Bool
+    | .nil => true
+    | .cons e r => floatsFinite e && floatsFiniteL r
+  def floatsFiniteM : MapItems → Bool
+    | .nil => true
+    | .cons _ e r => floatsFinite e && floatsFiniteM r
+  def floatsFiniteAL : AccessList → Bool
+    | .nil => true
+    | .cons a r => floatsFiniteA a && floatsFiniteAL r
+  def floatsFiniteA : Access → Bool
+    | .expr _ _ e => floatsFinite e
+    | _ => true
+end
+
+/-- a formatter under which every float literal is trivially fine: `NamesOk ff1 e` is the condition on
+    names, string spellings and indices alone -/
+def ff1 : UInt64 → Bytes := fun _ => [49, 46, 53]
+
+mutual
+  /-- with Go's formatting the float clause of `NamesOk` holds of every finite float -/
+  theorem namesOk_go : (e : Expr) → floatsFinite e = true → NamesOk ff1 e = true → NamesOk ffGo e = true
+    | .null _, _, _ => by rw [NamesOk]
+    | .bool _ _, _, _ => by rw [NamesOk]
+    | .int _ _, _, _ => by rw [NamesOk]
+    | .float _ bits, hf, _ => by
+        rw [floatsFinite] at hf
+        simp only [Bool.and_eq_true, Bool.not_eq_true'] at hf
+        rw [NamesOk]
+        exact SoyVerif.Lemmas.F64Shape.floatSpelling_finite bits hf.1 hf.2
+    | .str _ q _, _, hn => by rw [NamesOk] at hn ⊢; exact hn
+    | .global _ n, _, hn => by rw [NamesOk] at hn ⊢; exact hn
+    | .func _ n args, hf, hn => by
+        rw [floatsFinite] at hf
+        rw [NamesOk] at hn ⊢
+        simp only [Bool.and_eq_true] at hn ⊢
+        exact ⟨hn.1, namesOkL_go args hf hn.2⟩
+    | .list _ items, hf, hn => by
+        rw [floatsFinite] at hf
+        rw [NamesOk] at hn ⊢
+        exact namesOkL_go items hf hn
+    | .map _ items, hf, hn => by
+        rw [floatsFinite] at hf
+        rw [NamesOk] at hn ⊢
+        exact namesOkM_go items hf hn
+    | .dataRef _ k acc, hf, hn => by
+        rw [floatsFinite] at hf
+        rw [NamesOk] at hn ⊢
+        simp only [Bool.and_eq_true] at hn ⊢
+        exact ⟨hn.1, namesOkAL_go acc hf hn.2⟩
+    | .not _ a, hf, hn => by
+        rw [floatsFinite] at hf
+        rw [NamesOk] at hn ⊢
+        exact namesOk_go a hf hn
+    | .neg _ a, hf, hn => by
+        rw [floatsFinite] at hf
+        rw [NamesOk] at hn ⊢
+        exact namesOk_go a hf hn
+    | .bin _ _ a b, hf, hn => by
+        rw [floatsFinite] at hf
+        rw [NamesOk] at hn ⊢
+        simp only [Bool.and_eq_true] at hf hn ⊢
+        exact ⟨namesOk_go a hf.1 hn.1, namesOk_go b hf.2 hn.2⟩
+    | .tern _ c a b, hf, hn => by
+        rw [floatsFinite] at hf
+        rw [NamesOk] at hn ⊢
+        simp only [Bool.and_eq_true] at hf hn ⊢
+        exact ⟨⟨namesOk_go c hf.1.1 hn.1.1, namesOk_go a hf.1.2 hn.1.2⟩, namesOk_go b hf.2 hn.2⟩
+  theorem namesOkL_go : (l : ExprList) → floatsFiniteL l = true → NamesOkL ff1 l = true → NamesOkL ffGo l = true
+    | .nil, _, _ => by rw [NamesOkL]
+    | .cons e r, hf, hn => by
+        rw [floatsFiniteL] at hf
+        rw [NamesOkL] at hn ⊢
+        simp only [Bool.and_eq_true] at hf hn ⊢
+        exact ⟨namesOk_go e hf.1 hn.1, namesOkL_go r hf.2 hn.2⟩
+  theorem namesOkM_go : (m : MapItems) → floatsFiniteM m = true → NamesOkM ff1 m = true → NamesOkM ffGo m = true
+    | .nil, _, _ => by rw [NamesOkM]
+    | .cons _ e r, hf, hn => by
+        rw [floatsFiniteM] at hf
+        rw [NamesOkM] at hn ⊢
+        simp only [Bool.and_eq_true] at hf hn ⊢
+        exact ⟨namesOk_go e hf.1 hn.1, namesOkM_go r hf.2 hn.2⟩
+  theorem namesOkAL_go : (l : AccessList) → floatsFiniteAL l = true → NamesOkAL ff1 l = true → NamesOkAL ffGo l = true
+    | .nil, _, _ => by rw [NamesOkAL]
+    | .cons a r, hf, hn => by
+        rw [floatsFiniteAL] at hf
+        rw [NamesOkAL] at hn ⊢
+        simp only [Bool.and_eq_true] at hf hn ⊢
+        exact ⟨namesOkA_go a hf.1 hn.1, namesOkAL_go r hf.2 hn.2⟩
+  theorem namesOkA_go : (a : Access) → floatsFiniteA a = true → NamesOkA ff1 a = true → NamesOkA ffGo a = true
+    | .key _ _ k, _, hn => by rw [NamesOkA] at hn ⊢; exact hn
+    | .index _ _ i, _, hn => by rw [NamesOkA] at hn ⊢; exact hn
+    | .expr _ _ e, hf, hn => by
+        rw [floatsFiniteA] at hf
+        rw [NamesOkA] at hn ⊢
+        exact namesOk_go e hf hn
+end
+
+section
+variable (LT : LexTableOK)
+include LT
+
+/-- per token, floats, WITHOUT hypothesis on the spelling: `FloatNode.String()` of every finite double
+    is read back by the lexer as one Float token -/
+theorem lex_float_finite (bits : UInt64) (hn : (F64.mk bits).isNaN = false) (hi : (F64.mk bits).isInf = false) :
+    lexAll (fmtFloatLit ffGo bits) true =
+      .items [⟨.tFloat, (fmtFloatLit ffGo bits).length, fmtFloatLit ffGo bits⟩, errItem] :=
+  lex_float LT _ (SoyVerif.Lemmas.F64Shape.floatSpelling_finite bits hn hi)
+
+/-- `lex_print` with Go's float formatting: the hypothesis on floats is finiteness -/
+theorem lex_print_go (e : Expr) (hF : floatsFinite e = true) (hN : NamesOk ff1 e = true) :
+    ∃ items, lexAll (printExpr ffGo e) true = .items items ∧ items.map Item.tk = toks ffGo e ++ [errTk] :=
+  lex_print ffGo LT e (namesOk_go e hF hN)
 
 end
 
